@@ -125,6 +125,8 @@ def gen_history(rng, hostile=True, clash_ok=True):
             c = content("AB", i)
             steps.append(("w", "A", p, c))
             steps.append(("w", "B", p, c))
+        elif k == 19:
+            steps.append(("ro", side, p))
         else:
             steps.append(("s",))
             syncs += 1
@@ -161,6 +163,14 @@ def scripted_histories():
     H.append([("w", "A", "f", b"v1"), ("w", "B", "f", b"v1"), ("s",), ("w", "A", "f", b"v2"), ("w", "B", "f", b"v2"), ("s",), ("d", "A", "f"), ("w", "B", "f", b"v1"), ("s",), ("s",)])
     # create on one side, three paths in one run, empty file
     H.append([("w", "A", "f", b""), ("w", "B", "g", Y), ("w", "A", "d/e/i", X), ("s",), ("w", "A", "g", b"g2"), ("d", "B", "f"), ("w", "B", "d/e/i", b"i2"), ("s",), ("s",)])
+    # a run that ends with a conflict must still record what it did: afterwards one side goes back to bytes it
+    # had before that run / re-creates a file whose delete that run mirrored
+    for side, other in (("A", "B"), ("B", "A")):
+        H.append([("w", "A", "f", b"base"), ("w", "B", "f", b"base"), ("s",), ("w", "A", "f", b"AAA"), ("w", "B", "f", b"BBB"), ("s",), ("w", side, "f", b"base"), ("s",), ("s",)])
+        H.append([("w", "A", "f", b"base"), ("w", "B", "f", b"base"), ("w", "A", "g", Z), ("w", "B", "g", Z), ("s",), ("w", "A", "f", b"AAA"), ("w", "B", "f", b"BBB"), ("d", side, "g"), ("s",), ("w", other, "g", Z), ("s",), ("s",)])
+        H.append([("w", "A", "f", b"base"), ("w", "B", "f", b"base"), ("w", "A", "g", b"g1"), ("w", "B", "g", b"g1"), ("s",), ("w", "A", "f", b"AAA"), ("w", "B", "f", b"BBB"), ("w", side, "g", b"g2"), ("s",), ("w", side, "g", b"g1"), ("s",), ("s",)])
+    # write-protected files are replaced, deleted and conflict-copied like any other
+    H.append([("w", "A", "f", Z), ("w", "B", "f", Z), ("w", "A", "g", Y), ("w", "B", "g", Y), ("ro", "A", "f"), ("ro", "B", "f"), ("ro", "B", "g"), ("s",), ("w", "A", "f", X), ("ro", "A", "f"), ("d", "A", "g"), ("s",), ("w", "A", "f", b"a2"), ("w", "B", "f", b"b2"), ("ro", "A", "f"), ("ro", "B", "f"), ("s",), ("s",)])
     # recreate after delete propagated
     H.append([("w", "A", "f", Z), ("s",), ("d", "A", "f"), ("s",), ("w", "B", "f", Z), ("s",), ("d", "B", "f"), ("s",), ("w", "A", "f", Z), ("w", "B", "f", Z), ("s",), ("d", "A", "f"), ("s",)])
     return H
@@ -189,6 +199,13 @@ def apply_step(sb, step, mtime_of=None):
         full = os.path.join(sb.side(side), p)
         try:
             os.unlink(full)
+        except OSError:
+            pass
+        return None
+    if kind == "ro":
+        _, side, p = step
+        try:
+            os.chmod(os.path.join(sb.side(side), p), 0o444)
         except OSError:
             pass
         return None
@@ -224,7 +241,7 @@ def apply_step(sb, step, mtime_of=None):
 
 def swap_step(step):
     sw = {"A": "B", "B": "A"}
-    if step[0] in ("w", "d", "wc", "rc"):
+    if step[0] in ("w", "d", "wc", "rc", "ro"):
         return (step[0], sw[step[1]]) + tuple(step[2:])
     return step
 
@@ -978,6 +995,7 @@ def c08_scenarios():
     S["delete-vs-modify"] = [("w", "A", "f", Z), ("w", "B", "f", Z), ("s",), ("d", "A", "f"), ("w", "B", "f", b"b-mod")]
     S["first-run-no-archive"] = [("w", "A", "only-a", Z), ("w", "B", "only-b", Y), ("w", "A", "both", b"a"), ("w", "B", "both", b"b"), ("w", "A", "same", Z), ("w", "B", "same", Z)]
     S["five-paths"] = [("w", "A", "p1", b"1"), ("w", "B", "p1", b"1"), ("w", "A", "p2", b"2"), ("w", "B", "p2", b"2"), ("w", "A", "p3", b"3"), ("w", "B", "p3", b"3"), ("w", "A", "p4", b"4"), ("w", "B", "p4", b"4"), ("s",), ("w", "A", "p1", b"1a"), ("w", "B", "p2", b"2b"), ("d", "A", "p3"), ("w", "A", "p4", b"4a"), ("w", "B", "p4", b"4b"), ("w", "B", "d/p5", b"5")]
+    S["readonly-files"] = [("w", "A", "f", Z), ("w", "B", "f", Z), ("w", "A", "g", Y), ("w", "B", "g", Y), ("w", "A", "h", b"h"), ("w", "B", "h", b"h"), ("s",), ("w", "A", "f", b"f-new"), ("ro", "A", "f"), ("ro", "B", "f"), ("d", "A", "g"), ("ro", "B", "g"), ("w", "A", "h", b"h-a"), ("w", "B", "h", b"h-b"), ("ro", "A", "h"), ("ro", "B", "h")]
     S["big-file-640K"] = [("w", "A", "keep", Z), ("w", "B", "keep", Z), ("s",), ("w", "A", "big", big)]
     S["big-replace"] = [("w", "A", "big", big), ("w", "B", "big", big), ("s",), ("w", "B", "big", big[::-1])]
     return S
